@@ -22,4 +22,11 @@ PROPS = {
         "modelled": EXTERNAL,
         "assumptions": ["NoopNormalizer (identity) is the normalizer"],
     },
+    "C07": {
+        "suites": [("axes", 150, 400)],
+        "proved_scope": "(in progress)",
+        "not_proved": "(in progress)",
+        "modelled": EXTERNAL,
+        "assumptions": [],
+    },
 }
